@@ -201,18 +201,35 @@ def run_case(P, scratch, backend_kind, nworkers, rng, flags=None, faults=None, k
                 class _Died(BaseException):
                     pass
 
-                def _die(a, b, _pk=os.path.join('packs', 'jugpack')):
-                    if str(b).endswith(_pk):
-                        raise _Died()
-                    return _real_rename(a, b)
-                _real_rename = _fsmod.os.rename
-                _fsmod.os.rename = _die
+                _pk = os.path.join('packs', 'jugpack')
+                _saved = {}
+
+                def _mk(real):
+                    def _die(a, b, *rest, **kw):
+                        if str(b).endswith(_pk):
+                            raise _Died()
+                        return real(a, b, *rest, **kw)
+                    return _die
+                # however the new pack file is put in place (rename, replace, link): that step is where the process dies
+                for _nm in ('rename', 'replace', 'link'):
+                    _saved[_nm] = getattr(_fsmod.os, _nm)
+                    setattr(_fsmod.os, _nm, _mk(_saved[_nm]))
+                import shutil as _sh
+                _backup = be.dir + '.before-pack'
+                _sh.copytree(be.dir, _backup, symlinks=True)
                 try:
                     be.store().update_pack()
+                    # the pack was completed by a step this harness does not know: that is another scenario (a finished `jug pack` next to running workers,
+                    # which the property does not speak about) - put the store back as it was and go on
+                    _sh.rmtree(be.dir)
+                    _sh.copytree(_backup, be.dir, symlinks=True)
+                    lib.CALLS.append(('R', 'pack-not-interrupted', None, None, ''))
                 except _Died:
                     lib.CALLS.append(('R', 'pack-interrupted', None, None, ''))
                 finally:
-                    _fsmod.os.rename = _real_rename
+                    for _nm, _f in _saved.items():
+                        setattr(_fsmod.os, _nm, _f)
+                    _sh.rmtree(_backup, ignore_errors=True)
             elif not fired['done'] and pend is not None and pend[0] == 'endOk' and pend[1] == task:
                 fired['done'] = True
                 st = be.store()
